@@ -149,7 +149,7 @@ man = dict(
     not_applicable=na,
     notes="All checks: ./check <id> --tier quick|thorough. Exit 0 held / 1 reproduced violation / 3 harness error. "
           "Measured wall times on 16 cores, repaired tree, each thorough command run end-to-end (0 inconclusive obligations in every run): "
-          "quick C01 10s C02 21 C03 38 C04 19 C05 7 C06 11 C07 33 C08 3 C09 7 C10 71 C11 27 C12 31 C13 4 C14 10 C15 15 C16 13 C17 7 C18 9 (~5.5 min); "
+          "quick C01 10s C02 21 C03 37 C04 17 C05 7 C06 11 C07 32 C08 8 C09 7 C10 80 C11 27 C12 31 C13 4 C14 10 C15 15 C16 14 C17 7 C18 8 (~6 min); "
           "thorough (first figure: 16 processes, second session; figures marked * were re-measured in the third session with 6 processes on a loaded "
           "machine after the harness additions) C01 73s C02 279 C03 181 C04 162 C05 53 C06 94* C07 433 C08 99* C09 337 C10 579* C11 134 C12 254* C13 78* "
           "C14 50 C15 297 C16 280* C17 132* C18 185* (~65 min). The two inconclusive obligations seen in the loaded re-measurement (one 40 s solver "
